@@ -11,6 +11,7 @@ H = 'src/hermes.rs'
 
 # mutation canaries (thorough tier): textual mutations of the EXTRACTED copy that must each fail an obligation of the named item
 MUTANTS = [
+    ('hermes::SourceMapHermes::get_original_function_name', r'lookup_token\(0, bytecode_offset\)', 'lookup_token(bytecode_offset, 0)'),
     ('hermes::SourceMapHermes::get_scope_for_token', 'u64::from\\(token\\.get_src_line\\(\\)\\) \\+ 1', 'u64::from(token.get_src_line())'),
     ('hermes::SourceMapHermes::get_scope_for_token', 'mapping\\.name_index as usize', 'mapping.name_index as usize + 1'),
 ]
@@ -40,3 +41,9 @@ def build(u):
         u.count('R-closure', f.annotate_closure('o', 'o: &HermesScopeOffset', '(k: (u64, u32)) ensures k == (o.line as u64, o.column)', expect=1))
         u.count('R-closure', f.annotate_closure('n', 'n: &String', '(s: &str) ensures s@ == n@', expect=1))
     emit_method(u, H, r'SourceMapHermes\b', 'get_scope_for_token', 'hermes::SourceMapHermes::get_scope_for_token', prep=prep)
+
+    # the bytecode-offset entry point: lookup_token on line 0 (proved in u2), then the scope lookup
+    u.spec('tokens.rs')
+    u.spec('sm_lookup.rs')
+    import_method(u, T, r'SourceMap\b', 'lookup_token', 'types::SourceMap::lookup_token', 'u2_lookup.ctr', 'u2_lookup')
+    emit_method(u, H, r'SourceMapHermes\b', 'get_original_function_name', 'hermes::SourceMapHermes::get_original_function_name')
